@@ -1,3 +1,5 @@
+// Final parameters as run on 2026-09-25 (results: d4,d5,d6,d7 violated=true on the pinned tree,
+// all false with notes/probes/candidate_fixes.diff applied). Link ages must stay within 3..13 epochs.
 use circ::*;
 use std::cell::Cell;
 use std::sync::atomic::{AtomicBool, AtomicUsize, Ordering::*};
@@ -51,8 +53,11 @@ fn hook(site: u32) {
     match (site, role) {
         // T1 (role 1) pauses between the two adds of increment_strong
         (1, 1) => {
-            set(0, 1);
-            wait(0, 2);
+            // pause only the first time: with the candidate fix the add is retried in a loop
+            if STAGE[0].load(SeqCst) == 0 {
+                set(0, 1);
+                wait(0, 2);
+            }
         }
         // T_a (role 2) pauses after reading the epoch in decrement_strong
         (2, 2) => {
@@ -89,7 +94,7 @@ fn hook(site: u32) {
     }
 }
 fn install() {
-    vhook::HOOK.store(hook as usize, SeqCst);
+    vhook::HOOK.store(hook as *const () as *mut (), SeqCst); // HOOK: AtomicPtr<()>
     for s in &STAGE {
         s.store(0, SeqCst);
     }
@@ -121,7 +126,8 @@ fn d4_increment_from_zero_race() {
         v
     });
     wait(0, 1);
-    churn(12); // TD1 runs: sees 1, decrements to 0, defers TD2
+    // K=3..5: token consumed, TD2 still pending; K>=6: destructed during the stall
+    churn(std::env::var("K").map(|v| v.parse().unwrap()).unwrap_or(12)); // TD1 runs: sees 1, decrements to 0, defers TD2
     set(0, 2);
     wait(0, 3);
     churn(24); // TD2: 1->0, TD3: destruct
@@ -223,6 +229,10 @@ fn d6_stale_stamp_overwrite() {
 #[test]
 fn d7_stale_window_sibling() {
     install();
+    // epoch must be >= 16 (window aliasing) and aligned so that never-stamped nodes (epoch bits 0)
+    // do not alias to "too recent" during the scenario (residues 14,15,0,1,2 are bad)
+    churn(20);
+    while vhook::epoch() % 16 != 0 { churn(1); }
     churn(20);
     while vhook::epoch() % 16 != 0 { churn(1); }
     let (pn, _pd) = node(30);
